@@ -21,9 +21,7 @@ EXPLANATION = (
     'accessor code, not over sampled calls.')
 
 
-TECHNIQUE = ('static analysis: flow-sensitive may-alias/escape dataflow over the CFG of each public accessor with its private helpers inlined; path-wise symbolic evaluation of the window the series accessor returns (linear forms over cutoff / default, stored[lo:hi] references, assumptions taken at None / flag tests)')
-
-
+TECHNIQUE = ('static analysis: flow-sensitive may-alias/escape dataflow over the CFG of each public accessor with its private helpers inlined; path-wise symbolic evaluation of the window the series accessor returns (linear forms over cutoff / default, stored[lo:hi] references, assumptions taken at None / flag tests); constructor / class-level defaults and injectivity of the group-to-holder choice')
 def _has_return_value(f):
     return any(isinstance(n, ast.Return) and n.value is not None for n in ast.walk(f.node))
 
